@@ -39,6 +39,9 @@ def helper_cases():
 
 def id_schema(exprs):
     fields = [gql.FieldDef("i%d" % k, t) for k, t in enumerate(exprs)]
+    # the same expressions once more on deprecated fields (with / without a reason): the coercion and the
+    # `#[deprecated]` attribute are independent of each other
+    fields += [gql.FieldDef("d%d" % k, t, dep=(("old id",) if k % 2 else (None,))) for k, t in enumerate(exprs)]
     return gql.Schema([
         gql.iface("Node", [("s", "String")]),
         # `id` is NOT of type ID and `name`-like fields are: the coercion follows the type, never the name
@@ -48,7 +51,7 @@ def id_schema(exprs):
     ], {"query": "Q"})
 
 
-POSITIONS = ["plain", "alias", "spread", "variant", "conditional", "conditional_variant"]
+POSITIONS = ["plain", "alias", "spread", "variant", "conditional", "conditional_variant", "deprecated", "deprecated_variant"]
 COND = [("include", "c")]
 CVARS = [("c", "Boolean!", None)]
 
@@ -57,6 +60,10 @@ def op_for(position, k):
     f = "i%d" % k
     if position == "plain":
         return Doc([Op("query", "Op", [Field("t", [Field(f), Field("s"), Field("id")])])]), ["t"], f
+    if position == "deprecated":
+        return Doc([Op("query", "Op", [Field("t", [Field("d%d" % k), Field("s"), Field("id")])])]), ["t"], "d%d" % k
+    if position == "deprecated_variant":
+        return Doc([Op("query", "Op", [Field("node", [TN(), Inline("T", [Field("d%d" % k), Field("n"), Field("ID")])])])]), ["node"], "d%d" % k
     if position == "alias":
         return Doc([Op("query", "Op", [Field("t", [Field(f, alias="a"), Field("s"), Field("id")])])]), ["t"], "a"
     if position == "spread":
@@ -145,7 +152,7 @@ def run(tier):
                 doc, holder_path, wire = op_for(pos, k)
                 mods.append({"k": k, "t": t, "pos": pos, "doc": doc, "holder": holder_path, "wire": wire, "declared": True})
     # ... and under other option sets: where the coercion is attached must not depend on options
-    OPTION_SETS = [{"custom_scalars_module": "crate::scalars"}, {"normalization": "rust", "skip_none": True, "other_variant": True},
+    OPTION_SETS = [{"deprecation": "allow"}, {"custom_scalars_module": "crate::scalars"}, {"normalization": "rust", "skip_none": True, "other_variant": True},
                    {"deprecation": "deny", "response_derives": "Serialize,Debug,Clone"}]
     for k, t in enumerate(exprs):
         for oi, o in enumerate(OPTION_SETS):
@@ -178,8 +185,10 @@ def run(tier):
                 n_other += 1
                 if dw:
                     rep.violation("helper_on_non_id_field", dict(label, field=f["name"], ty=f["ty"]), dw)
-        if n_id != 1:
-            rep.violation("id_field_count", label, "expected exactly one ID-typed struct field, found %d" % n_id)
+        denied = m["pos"].startswith("deprecated") and (m.get("opts") or {}).get("deprecation") == "deny"
+        if n_id != (0 if denied else 1):
+            rep.violation("id_field_count", label, "expected exactly %s ID-typed struct field, found %d" % ("no" if denied else "one", n_id))
+        m["denied"] = denied
         m["case"] = farm.add(Case(r["tokens"], [("op", "Op")]))
     farm.build()
     freqs, fmeta = [], []
@@ -198,13 +207,18 @@ def run(tier):
 
         def payload(v, absent=False):
             inner = {"s": "x"}
-            if m["pos"] in ("variant", "conditional_variant"):
+            if m["pos"] in ("variant", "conditional_variant", "deprecated_variant"):
                 inner = {"__typename": "T", "n": 1}
             if not absent:
                 inner[m["wire"]] = v
             return {m["holder"][0]: inner}
 
         t = m["t"]
+        if m.get("denied"):
+            # `deny` leaves the field out of the struct; payloads that carry it still deserialise
+            freqs.append({"case": cid, "module": "op", "what": "resp", "arg": payload(value_of(t, 7))})
+            fmeta.append((m, "accept_only", None, "field omitted under deny, payload still carries it"))
+            continue
         if m["pos"].startswith("conditional") and t[0] == "NN":
             t = t[1]   # the response type of a conditional field is nullable at the outermost level
         for leaf in ("x", 7, "007", I64_MIN):
@@ -226,7 +240,7 @@ def run(tier):
     for (m, want, val, desc), r, q in zip(fmeta, fres, freqs):
         ok = bool(r and r.get("ok"))
         label = dict(m["label"], vector=desc, payload=q["arg"] if not isinstance(q["arg"], str) else q["arg"][:300])
-        if want in ("accept", "accept_absent"):
+        if want in ("accept", "accept_absent", "accept_only"):
             if not ok:
                 sigs = {"nullable_id_absent"} if want == "accept_absent" else set()
                 rep.violation("id_value_rejected", label, (r or {}).get("err"), sigs)
